@@ -111,6 +111,7 @@ Record node : Type := {
 
 (* ---- outputs ---------------------------------------------------------------------- *)
 Inductive output : Type :=
+| OQueue (cid : nat) (m : omsg)         (* the node hands m to the connection (Node.send_message): ghost, not observed *)
 | OSend (cid : nat) (m : omsg)          (* bytes of m accepted by the socket of cid *)
 | ODeliver (app : nat) (m : msg)        (* Application.receive_request *)
 | OAnswerTo (app : nat) (m : msg)       (* a blocked send_request caller is handed its answer *)
@@ -273,7 +274,7 @@ Definition pw_remove (pw : list (string * list (Z * Z))) (host : string) (k : Z 
    the bytes reach the socket at the next I/O iteration (see `flush`) if the connection still
    exists then *)
 Definition queue_out (n : node) (cid : nat) (m : omsg) : node * list output :=
-  (set_conns n (upd_conn (n_conns n) cid (fun c => set_cout c (c_out c ++ [m])%list)), []).
+  (set_conns n (upd_conn (n_conns n) cid (fun c => set_cout c (c_out c ++ [m])%list)), [OQueue cid m]).
 
 (* Node.send_message *)
 Definition send_message (n : node) (cid : nat) (m : omsg) : node * list output :=
